@@ -459,3 +459,30 @@ Fixpoint rw_tok (t : tok) : tok :=
       else TFld n cv (match sp with Some l => Some (map rw_tok l) | None => None end)
   | _ => t
   end.
+
+(* ------------------------------------------------------------------------------------------------------------
+   6. Harness entry point: everything the correspondence compares, printed compactly (a component equal to the one it
+   is derived from is printed as None). *)
+Definition ek_code (e : ekind) : nat :=
+  match e with
+  | EAssert => 0 | EIndex => 1 | EValue => 2 | EKey => 3 | ESQLParse => 4 | ESQLLex => 5 | ESkipFile => 6
+  | ETemplater => 7 | EFuel => 8 | ERuntime => 9
+  end.
+Definition res_text_eqb (a b : res text) : bool :=
+  match a, b with
+  | Ok x, Ok y => text_eqb x y
+  | Err e, Err f => Nat.eqb (ek_code e) (ek_code f)
+  | _, _ => false
+  end.
+Definition harness_case (c : text * otab * bool)
+  : option text * option (list item) * res text * option (res text) * option (res text) :=
+  let '(s, o, want_parse) := c in
+  let h := dot_hack s in
+  let r := t_render o s in
+  let sp := t_spec o s in
+  let f := t_format o s in
+  (if text_eqb h s then None else Some h,
+   if want_parse then Some (parse_fmt s) else None,
+   r,
+   if res_text_eqb sp r then None else Some sp,
+   if res_text_eqb f r then None else Some f).
